@@ -358,11 +358,22 @@ func init() {
 		lf.raw("/-- each of the six accessors starts with `if !uid.IsValid() { return … }` -/\n")
 		lf.raw("def passwdGuardIsUidValid : Bool := " + rfBool(all) + "\n")
 		ust := rfStruct(pt, "UserecRaw")
-		for _, f := range []string{"PasswdHash", "UserLevel", "Email"} {
+		for _, f := range []string{"UserID", "Money", "PasswdHash", "UserLevel", "Email"} {
 			off, ln := rfAlignedField(pt, ust, f)
 			lf.nat("pwOff"+f, off)
 			lf.nat("pwLen"+f, ln)
 		}
+		// ptt.pwcuStart: how the (uid, user-id) pair a session holds is compared with the record
+		cmp := ""
+		ast.Inspect(rfFuncDecl(pp, "pwcuStart").Body, func(n ast.Node) bool {
+			if is, ok := n.(*ast.IfStmt); ok && cmp == "" && strings.Contains(rfExprText(pp, is.Cond), "userID") {
+				cmp = rfExprText(pp, is.Cond)
+			}
+			return true
+		})
+		lf.raw("/-- the condition under which ptt.pwcuStart refuses the (uid, user-id) pair -/\n")
+		lf.raw("def pwcuStartRefuseExpr : String := " + rfLeanStr(cmp) + "\n")
+		lf.raw("def pwcuStartComparesExact : Bool := " + rfBool(cmp == "types.Cstrcmp(userID[:], user.UserID[:]) != 0") + "\n")
 		lf.write(out)
 	})
 }
